@@ -17,6 +17,7 @@ RULE = ('Hypothesis constructions: data abscissae (5-120 values; uniform / clust
         'discontinuous spline); basis non-negative and summing to one; mask == inside the breakpoint range.  Non-trivial = order >= 2, '
         'unsorted evaluation points hitting >= 3 distinct intervals.')
 RULE += '  Also: float32 evaluation points, abscissae near 9000 with closely spaced breakpoints, unsorted data with everyn, a second evaluation on the same object.'
+RULE += ' Round 5: repeated interior values with everyn; spacings that divide the data range exactly (breakpoint count asserted).'
 ASSUMPTIONS = ['explicit / placed breakpoints are strictly increasing and data ranges are positive (>= 2 distinct breakpoints result); everyn <= nx/2 '
                'with sorted data that are distinct in single precision (the breakpoints are stored as float32), as iterfit passes them',
                'values outside the breakpoint range are not asserted (only the mask is): pydl extrapolates the end polynomial there',
